@@ -302,6 +302,9 @@ def build(rng, *, family="base", n_axes=1, layout="onaxis", n_glyphs=8, curves="
                 elif transforms == "overflow":
                     s = rng.choice([1.5, 1.9, 2.0, 2.5, -2.2, 1.25])
                     m2 = rng.choice([[s, 0, 0, s], [s, 0, 0, 1], [1, 0, 0, s]])
+                    if rng.random() < 0.4:
+                        # the entries beyond the 2.14 range sit off the diagonal: a turned and enlarged or a sheared component
+                        m2 = rng.choice([[0, 2.5, -2.5, 0], [1.5, 2.5981, -2.5981, 1.5], [1, 2.4, 0, 1], [1, 0, -2.3, 1], [0, -3, 3, 0], [0, 1.9, -1.9, 0]])
                 elif transforms == "scale":
                     s = rng.choice([0.5, 0.75, 1.25, 1.5, -1])
                     m2 = rng.choice([[s, 0, 0, s], [s, 0, 0, 1], [-1, 0, 0, 1], [1, 0, 0, -1]])
@@ -1133,11 +1136,17 @@ def boundary(model, rng, kind=None):
     elif kind == "comp-scale" and comps:
         g = rng.choice(comps)
         v = rng.choice([1.99993896484375, 1.99997, 2.0, -2.0, 2.0001, -2.0001, 3.0, -5.0])
-        which = rng.choice([0, 3])
+        which = rng.choice([0, 3, 1, 2])
+        # a glyph that also has an outline of its own takes another route through the compiler (contours moved into a new component, or the
+        # glyph decomposed) than a pure composite
+        mixed = rng.random() < 0.5 and not any(l["contours"] for l in all_layers(g))
+        own = dedupe(polygon(rng, rnum(rng, 100, 500), rnum(rng, 0, 600), rnum(rng, 40, 150), rng.randint(3, 5), None)) if mixed else None
         for l in all_layers(g):
             if l["components"]:
                 l["components"][0]["xform"][which] = v
-        b.update(glyph=g["name"], value=v, beyond=abs(v) > 1.99993896484375 and v != -2.0)
+                if mixed:
+                    l["contours"] = [[list(p) for p in own]]
+        b.update(glyph=g["name"], value=v, entry=which, mixed=mixed, beyond=abs(v) > 1.99993896484375 and v != -2.0)
     elif kind == "kern" and len(glyphs) >= 2:
         a, c = glyphs[0]["name"], glyphs[1]["name"]
         v = rng.choice(I16)
@@ -1296,6 +1305,24 @@ def add_rules(model, rng, n_rules=None, conflicts=0.2):
                         cs.append({"axis": pa["name"], "tag": pa["tag"], "min": pos + 1, "max": None})
                     else:
                         cs.append({"axis": pa["name"], "tag": pa["tag"], "min": None, "max": pos - 1})
+        var_axes = [a for a in model["axes"] if a["min"] != a["max"]]
+        if rules and var_axes and r2.random() < 0.6:
+            # a condition set that can never apply (the point axis excludes it) in front of the rule's other sets, narrowing a variable axis
+            # that the following set does not mention: nothing of the dead set may survive into the next one
+            rule = r2.choice(rules)
+            a = r2.choice(var_axes)
+            lo, df, hi = design_bounds(a)
+            dl, dh = sorted((lo, hi))
+            mid = round(dl + (dh - dl) * r2.uniform(0.3, 0.7))
+            dead = [{"axis": a["name"], "tag": a["tag"], "min": mid, "max": dh} if r2.random() < 0.5 else {"axis": a["name"], "tag": a["tag"], "min": dl, "max": mid},
+                    {"axis": pa["name"], "tag": pa["tag"], "min": pos + 1, "max": None} if r2.random() < 0.5 else {"axis": pa["name"], "tag": pa["tag"], "min": None, "max": pos - 1}]
+            r2.shuffle(dead)
+            nxt = rule["sets"][0]
+            rest = [c for c in nxt if c["tag"] != a["tag"]]
+            if rest:
+                nxt[:] = rest
+            rule["sets"].insert(0, dead)
+            model.setdefault("notes", []).append("dead-set-first")
     if rules and r2.random() < 0.6 and {"D", "E"} <= have:
         # feature code of the source next to the rules: an aalt feature puts its own lookups in front of everything
         # else in GSUB, so the lookups the rule records point to move (they must move with it)
